@@ -72,8 +72,29 @@ func c05encExec(c *cur) string {
 	rs = append(rs, encRes{"MapSeq.Xml", b, err, true})
 	b, err = mxj.MapSeq(sm).XmlIndent("", "  ")
 	rs = append(rs, encRes{"MapSeq.XmlIndent", b, err, true})
+	// A Map whose only key holds a list of Maps is written, by design, as one element per member
+	// (a sequence of documents that NewMapXmlReader reads back one by one): the number of root
+	// elements is then not a matter of value characters, and is not judged here.
+	rootList := false
+	if len(m) == 1 {
+		for _, v := range m {
+			if l, ok := v.([]interface{}); ok {
+				rootList = true
+				for _, e := range l {
+					if _, isMap := e.(map[string]interface{}); !isMap {
+						rootList = false
+					}
+				}
+			}
+		}
+	}
 	for _, e := range rs {
 		wf := e.err == nil && wellFormedAll(e.b)
+		if !wf && e.err == nil && rootList && !e.seq {
+			if _, why := wellFormedSingleRoot(e.b); strings.HasSuffix(why, "root elements") {
+				wf = true
+			}
+		}
 		switch {
 		case mode == 1:
 			// encoder-side escaping: always well formed, values decode back exactly
@@ -108,7 +129,29 @@ func c05encExec(c *cur) string {
 }
 
 func c05encGen(r *Rng) string {
+	mode := r.Intn(3)
 	m := map[string]interface{}{"r": r.hostileLeaves(r.c03Map(1))}
+	if mode != 1 && r.P(40) {
+		// the validity clause holds for every Map shape: root-level shapes the image oracle of
+		// mode 1 does not cover (single key with a scalar / list of scalars / mixed list, several
+		// root keys, attribute or text keys at the root)
+		switch r.Intn(4) {
+		case 0:
+			l := []interface{}{}
+			for i := 0; i < 1+r.Intn(3); i++ {
+				if r.P(70) {
+					l = append(l, strings.TrimSpace(r.hostile(4)))
+				} else {
+					l = append(l, r.hostileLeaves(r.c03Map(1)))
+				}
+			}
+			m = map[string]interface{}{r.Pick(xmlValueNames): l}
+		case 1:
+			m = map[string]interface{}{r.Pick(xmlValueNames): strings.TrimSpace(r.hostile(4))}
+		default:
+			m = r.hostileLeaves(r.c03Map(0)).(map[string]interface{})
+		}
+	}
 	// a MapSeq with hostile values: decode a generated document, then replace the leaves
 	g := c01Gen0
 	g.SeqShape, g.Comments, g.MaxDepth = true, false, 2
@@ -119,7 +162,11 @@ func c05encGen(r *Rng) string {
 	if err == nil {
 		sm = seqHostile(r, map[string]interface{}(ms)).(map[string]interface{})
 	}
-	return fmt.Sprintf("implonly enc4 %d %d %s %s", r.Intn(3), b2i(r.P(60)), enc(m), enc(sm))
+	if mode != 1 && r.P(15) {
+		// a MapSeq whose single root key holds a one-member list of a bare string
+		sm = map[string]interface{}{r.Pick(xmlValueNames): []interface{}{strings.TrimSpace(r.hostile(4))}}
+	}
+	return fmt.Sprintf("implonly enc4 %d %d %s %s", mode, b2i(r.P(60)), enc(m), enc(sm))
 }
 
 // seqHostile replaces "#text" strings of a MapSeq.
